@@ -705,6 +705,7 @@ WITNESSES = [
     ('typescript', {}, '#[typeshare]\npub struct S { #[serde(rename = "1st")] pub first: u8, #[serde(rename = "2-fa")] pub two: u8 }\n', 'C10-digit-name'),
     ('go', {'package': 'p'}, '#[typeshare]\npub struct S { pub _1x: u8 }\n', 'C10-digit-name'),
     ('go', {'package': 'p'}, '#[typeshare]\n#[serde(tag = "type", content = "content")]\npub enum switch { default(String) }\n', 'C10-go-keyword-name'),
+    ('go', {'package': 'p'}, '#[typeshare]\n#[serde(tag = "kind", content = "type")]\npub enum E { A(u8), B }\n', 'C10-go-keyword-name'),
     ('python', {}, '#[typeshare]\n#[serde(tag = "t", content = "c")]\npub enum G { #[serde(rename = "1a")] V(u8) }\n#[typeshare]\npub struct S { pub _1x: u8 }\n', 'C10-python-digit-name'),
     ('python', {}, '#[typeshare]\n#[serde(tag = "t", content = "c")]\npub enum G<T> { V(T) }\n#[typeshare]\npub type Al = Vec<G<u8>>;\n', 'C10-python-generic-enum-arg'),
 ]
